@@ -279,6 +279,7 @@ def run(ctx, rep):
     # branch site inside the caller object, so it has to be made from the object's far end: comparing the object's start against the
     # branch range declares an object that straddles the limit "in range", no thunk is allocated and the link of a valid program fails.
     conservative_range(ctx, rep, F, P)
+    block_reach(ctx, rep, F, P)
     rep.assume("thunk placement (block positions vs. object sizes) is a runtime quantity and is not decided; the Adr/Add field encoders are decided by C13")
 
 
@@ -357,3 +358,32 @@ def conservative_range(ctx, rep, F, P):
                 rep.ob("conservative-range", f"proof#{n}", ok, f"in-range proof `{lhs[:120]} < {rhs}`" + ("" if ok else f" does not involve the end of the caller's span (`{end_name}`): an object that begins "
                        "inside the range but extends beyond it is declared in range and gets no thunk"), proof.file, st["l"])
     rep.floor("conservative-range", "`< branch_range` proofs", n, 2)
+
+
+def block_reach(ctx, rep, F, P):
+    """assign_thunk_blocks walks objects (file, start, end) in address order and keeps an object with the previously placed thunk block only while the object is
+    within reach of it. "Within reach" must be judged from the object's *end* (component .2 of the item): its last instruction is the farthest from the block."""
+    import re
+    import decide
+    rep.rule("block-reach", "every distance compared with max_branch_range in assign_thunk_blocks is measured from the *end* (third component) of the object being placed")
+    b = next((x for x in F.all_bodies if x.key == "libwild::thunks::assign_thunk_blocks"), None)
+    if b is None:
+        rep.lost("block-reach", "thunks::assign_thunk_blocks")
+        return
+    rng = next((i for i in range(1, b.d["argc"] + 1) if b.locals[i].strip() == "u64"), None)
+    rng_name = b.local_name(rng) if rng else None
+    full = decide.all_edge_atoms_full(P, F, b)
+    seen = {}
+    for (sb, lab), (atom, _truth) in full.items():
+        m = re.match(r"bin:(Ge|Gt|Lt|Le)\(Sub\((.*?), (.*)\), (\w+)\)$", str(atom))
+        if not m or m.group(4) != rng_name:
+            continue
+        seen[sb] = (m.group(2), m.group(3), b.blocks[sb]["t"].get("l"))
+    rep.floor("block-reach", "distance-vs-range comparisons", len(seen), 2)
+    for n, (sb, (minuend, subtrahend, line)) in enumerate(sorted(seen.items())):
+        comp = re.search(r"@Some\.0\.(\d)$", minuend)
+        ok = bool(comp) and comp.group(1) == "2" and "next(" in minuend
+        rep.ob("block-reach", f"comparison#{n}", ok,
+               f"distance = <item>.2 (end) - {subtrahend}" if ok else
+               f"distance = {minuend} - {subtrahend}: measured from {'the start' if comp and comp.group(1) == '1' else 'something other than the end'} of the object - an object that starts within reach of the "
+               "block but ends beyond it keeps using that block, and the branches in its tail cannot reach their thunks (the link fails with an out-of-range error)", b.file, line)
